@@ -75,6 +75,12 @@ PROPS = {
         "rule": 'cases = counts {0,1,2,10,1000}^3 x duration statistics {0,1ns,1ms,1h} x elapsed {0,400ms,1s,90s} x error {nil, plain, one containing template syntax, percent and a newline} x verdict x log path x {plain, colour} template, plus the structured-log form; progress lines for the same counts x period; run.Result-level: counts {0,1,3}^3 x error x rate; distinct = (zero pattern, error, verdict)',
         "assumptions": E2_ASSUME,
     },
+    "C15": {
+        "parts": [{"harness": "c15", "budget": {"quick": 30, "thorough": 300}, "shards": {"quick": 4, "thorough": "ncpu"}},
+                  {"harness": "c15run", "budget": {"quick": 40, "thorough": 900}, "shards": {"quick": "ncpu", "thorough": "ncpu"}}],
+        "rule": "parse part: stage lists of length <=2 (thorough 3) over 5 modes x durations {1s,2s}, each stage carrying a marker parameter, stage-start absent / given, now in {start-1s, every cumulative end -1ns/=/+1ns, after the end}; per mode every field (plus duration, mode, parameters) sourced from stage only / default only / both: 3^k patterns (gaussian 3^11 in thorough); run part: 7 hand-built stage plans (distinct / overlapping parameter keys, users stages, caller cancel) explored over all schedules within the deviation bound; distinct = kept-stage patterns / source patterns / outcome signatures",
+        "assumptions": E2_ASSUME + E1_ASSUME + ["the environment (os.Setenv) is real process state, reset at the start of every execution; only the triggering goroutine's view is checked, in-flight bodies of a previous stage are not"],
+    },
     "C18": {
         "parts": [{"harness": "c18", "budget": {"quick": 30, "thorough": 300}, "shards": {"quick": 1, "thorough": 1}}],
         "rule": "one execution = one complete interleaving + timer order of the scenario (schedule list x function duration x Restart/Stop/cancel script); distinct = distinct outcome signatures (status, violations, ordered event log)",
@@ -126,6 +132,9 @@ LEVELS = {
     "C19": {"engine": "enum", "technique": 'bounded-exhaustive enumeration of result / progress data over a small alphabet; the rendered text and the structured log record are parsed back and compared with the data',
             "text": 'Every combination is rendered with both templates and logged through a JSON slog handler; counts, the started line, each percentage (= 100 x count / all iterations to two decimals), the banner and the error text are parsed back and must equal the data; rendering must not panic; and the data run.Result hands to the views must equal its snapshot.',
             "note": 'Trusted base: the reference model in the harness, the Go compiler. Values outside the stated alphabet are not explored.'},
+    "C15": {"engine": "enum", "technique": "bounded-exhaustive enumeration of stage lists x restart instants x field-source patterns against a reference plan and a differential trigger built from the effective fields; the run part is stateless model checking of the real stages worker in virtual time",
+            "text": "Every stage list is parsed at every restart instant that matters (each cumulative stage end and its 1 ns neighbours) and the kept stages, their order, durations, the total duration and the limits are compared with the reference rule; every pattern of field sources is compared behaviourally (tick interval and 25 rate values, jitter made visible by a scripted random source) with a trigger built directly from the effective values. The run part executes the real stages worker under all schedules within the bound: each stage's rate function must see exactly its own parameters, stages must not overlap, nothing may stay set afterwards.",
+            "note": "Trusted base: the reference rule, the vrt shims (run part), the Go compiler."},
     "C18": {"engine": "vrt", "technique": "stateless model checking of the real raterun.Runner under a controlled scheduler with virtual time: all interleavings, select choices and same-instant timer orders up to a deviation bound",
             "text": "The real Runner runs in virtual time against scripted Restart/Stop/cancel sequences; every interleaving of the runner goroutine with the driver, every select choice among ready cases and every order of same-instant timers is executed (deviation bound per scenario in the evidence) and the ordered event log is checked: rate per schedule activation, argument, nothing executing or invoked after Stop returned, no thread or timer left.",
             "note": E1_NOTE},
